@@ -1096,8 +1096,13 @@ def compare_lqr_model(ctx: Ctx, reps, metas):
         xm, um, cm, Km, km = U.parse_lqr_reply(rep, ns, nc, T)
         # model vs dense reference: a mismatch here is an infrastructure problem (both are mine), not a verdict
         if (np.abs(um - r.u) > C_TOL * eps * tol_u + 1e-30).any():
-            raise common.InfraError(f"Lean model and dense reference disagree on case {sig_of(case)} item {b}: "
-                                    f"{np.abs(um - r.u).max():.3e}")
+            # the float64 condensed reference is itself inexact on the most ill-conditioned problems (cond(H) ~ 1e13+); the
+            # 192-bit model is the exact value: keep comparing the implementation with the MODEL (the error scales below are
+            # still the right magnitudes), only note that the numpy reference was off here
+            ctx.count("lqr.reference-less-accurate-than-tolerance")
+            if r.condH < 1e10:
+                raise common.InfraError(f"Lean model and dense reference disagree on a well-conditioned case {sig_of(case)} item {b}: "
+                                        f"{np.abs(um - r.u).max():.3e} (cond H = {r.condH:.2e})")
         _, Ja = r.cost(xm, um)
         eu = np.abs(ui - um) / (C_TOL * eps * tol_u + 1e-300)
         ex = np.abs(xi - xm) / (C_TOL * eps * tol_x + 1e-300)
